@@ -55,45 +55,74 @@ type plArgs struct {
 func fmt64(f float64) string { return strconv.FormatFloat(f, 'g', -1, 64) }
 func fmt32(f float32) string { return strconv.FormatFloat(float64(f), 'g', -1, 32) }
 
-// refFloat: "a number as YAML reads it" with the standard library only — the opaque float reader handed to the model
-// (same reading as the C08 harness).
-func refFloat(s string, bits int) (float64, bool) {
-	plain := strings.ReplaceAll(s, "_", "")
-	if i, err := strconv.ParseInt(plain, 0, 64); err == nil {
-		return float64(i), true
-	}
-	if u, err := strconv.ParseUint(plain, 0, 64); err == nil {
-		return float64(u), true
-	}
-	if f, err := strconv.ParseFloat(plain, bits); err == nil {
-		return f, true
-	}
-	if f, err := strconv.ParseFloat(s, bits); err == nil {
-		return f, true
-	}
-	return 0, false
+// rawTables is the opaque part of the model's float casters (Model/InterpFloat.lean `RawFloat`; same rendering as the C08
+// harness): strconv.ParseFloat on a text and on the text without underscores, and the conversions float64(i) /
+// float32(float64(i)) of every integer some reading of the text yields.  Which reading applies is the model's business.
+type rawTables struct {
+	P64 map[string]string
+	P32 map[string]string
+	I64 map[string]string
+	I32 map[string]string
 }
 
-func floatTables(v any, lookup template.Mapping, f64, f32 map[string]string) {
+func newRawTables() *rawTables {
+	return &rawTables{P64: map[string]string{}, P32: map[string]string{}, I64: map[string]string{}, I32: map[string]string{}}
+}
+
+func (t *rawTables) addInt(dec string, f float64) {
+	t.I64[dec] = fmt64(f)
+	t.I32[dec] = fmt32(float32(f))
+}
+
+func (t *rawTables) add(s string) {
+	plain := strings.ReplaceAll(s, "_", "")
+	for _, x := range []string{s, plain} {
+		if f, err := strconv.ParseFloat(x, 64); err == nil {
+			t.P64[x] = fmt64(f)
+		}
+		if f, err := strconv.ParseFloat(x, 32); err == nil {
+			t.P32[x] = fmt32(float32(f))
+		}
+	}
+	for _, base := range []int{0, 2, 8, 10} {
+		if i, err := strconv.ParseInt(plain, base, 64); err == nil {
+			t.addInt(strconv.FormatInt(i, 10), float64(i))
+		}
+	}
+	if u, err := strconv.ParseUint(plain, 0, 64); err == nil {
+		t.addInt(strconv.FormatUint(u, 10), float64(u))
+	}
+	// whatever the real integer caster reads (yaml.v3's sign-after-prefix spellings `0b+1`, `0o-7`)
+	for pat, c := range loader.VerifCastTable() {
+		if string(pat) == "services.*.cpu_count" {
+			if v, err := c(s); err == nil {
+				if i, ok := v.(int64); ok {
+					t.addInt(strconv.FormatInt(i, 10), float64(i))
+				}
+			}
+		}
+	}
+}
+
+func (t *rawTables) into(out M) {
+	out["p64"], out["p32"], out["i64"], out["i32"] = t.P64, t.P32, t.I64, t.I32
+}
+
+func floatTables(v any, lookup template.Mapping, t *rawTables) {
 	switch x := v.(type) {
 	case string:
 		s, err := template.Substitute(x, lookup)
 		if err != nil {
 			return
 		}
-		if f, ok := refFloat(s, 64); ok {
-			f64[s] = fmt64(f)
-		}
-		if f, ok := refFloat(s, 32); ok {
-			f32[s] = fmt32(float32(f))
-		}
+		t.add(s)
 	case map[string]any:
 		for _, e := range x {
-			floatTables(e, lookup, f64, f32)
+			floatTables(e, lookup, t)
 		}
 	case []any:
 		for _, e := range x {
-			floatTables(e, lookup, f64, f32)
+			floatTables(e, lookup, t)
 		}
 	}
 }
@@ -167,11 +196,12 @@ func realLoad(raw json.RawMessage) any {
 	// what the model is handed besides the arguments: the environment as `projectName` leaves it (it stores
 	// COMPOSE_PROJECT_NAME: the C17 model's business), the float reader on every substituted leaf, the omitempty table
 	lookup := func(k string) (string, bool) { v, ok := env[k]; return v, ok }
-	f64, f32 := map[string]string{}, map[string]string{}
+	rt := newRawTables()
 	for _, t := range trees {
-		floatTables(t, lookup, f64, f32)
+		floatTables(t, lookup, rt)
 	}
-	out := M{"env": env, "f64": f64, "f32": f32, "omit": loader.VerifOmitEmptyPatterns()}
+	out := M{"env": env, "omit": loader.VerifOmitEmptyPatterns()}
+	rt.into(out)
 	if err != nil {
 		out["err"] = stageOf(err.Error())
 		out["text"] = err.Error()
@@ -193,7 +223,7 @@ func driverArgs(args, real json.RawMessage) any {
 	for k, v := range a {
 		out[k] = v
 	}
-	for _, k := range []string{"env", "f64", "f32", "omit"} {
+	for _, k := range []string{"env", "p64", "p32", "i64", "i32", "omit"} {
 		if v, ok := r[k]; ok {
 			out[k] = v
 		}
